@@ -64,7 +64,11 @@ def _field_arguments(attribute: Attribute) -> dict[str, Any] | None:
 
 
 @cache
-def _dataclass_parameters(class_: Class) -> list[Parameter]:
+def _dataclass_parameters(class_: Class) -> list[tuple[Parameter, bool]]:
+    # Fields declared by the class itself, in declaration order, each one with a flag
+    # telling whether it is an `__init__` parameter. Class variables and `field(init=False)` fields
+    # are no parameters, but they are kept (flag unset) since they override inherited fields of the same name.
+
     # Fetch `@dataclass` arguments if any.
     dec_args = _dataclass_arguments(class_.decorators)
 
@@ -86,13 +90,13 @@ def _dataclass_parameters(class_: Class) -> list[Parameter]:
             # - @property
             # - @cached_property
             # - ClassVar annotation
-            if "property" in member.labels or (
-                # TODO: It is better to explicitly check for `ClassVar`, but
-                # `Visitor.handle_attribute` unwraps it from the annotation.
-                # Maybe create `internal_labels` and store "classvar" in there.
-                "class-attribute" in member.labels and "instance-attribute" not in member.labels
-            ):
+            if "property" in member.labels:
                 continue
+
+            # TODO: It is better to explicitly check for `ClassVar`, but
+            # `Visitor.handle_attribute` unwraps it from the annotation.
+            # Maybe create `internal_labels` and store "classvar" in there.
+            in_init = not ("class-attribute" in member.labels and "instance-attribute" not in member.labels)
 
             # Start of keyword-only parameters.
             if isinstance(member.annotation, Expr) and member.annotation.canonical_path == "dataclasses.KW_ONLY":
@@ -104,9 +108,9 @@ def _dataclass_parameters(class_: Class) -> list[Parameter]:
             is_field = field_args is not None
             field_args = field_args or {}
 
-            # Parameter not added to `__init__`, skip it.
+            # Parameter not added to `__init__`.
             if field_args.get("init") == "False":
-                continue
+                in_init = False
 
             # Determine parameter kind: an explicit `kw_only` argument of `field()`
             # takes precedence over the class-level default (decorator argument or `KW_ONLY` sentinel).
@@ -126,27 +130,34 @@ def _dataclass_parameters(class_: Class) -> list[Parameter]:
 
             # Add parameter to the list.
             parameters.append(
-                Parameter(
-                    member.name,
-                    annotation=member.annotation,
-                    kind=kind,
-                    default=default,
-                    docstring=member.docstring,
+                (
+                    Parameter(
+                        member.name,
+                        annotation=member.annotation,
+                        kind=kind,
+                        default=default,
+                        docstring=member.docstring,
+                    ),
+                    in_init,
                 ),
             )
 
     return parameters
 
 
-def _reorder_parameters(parameters: list[Parameter]) -> list[Parameter]:
-    # De-duplicate, overwriting previous parameters.
-    params_dict = {param.name: param for param in parameters}
+def _reorder_parameters(parameters: list[tuple[Parameter, bool]]) -> list[Parameter]:
+    # De-duplicate, overwriting previous fields of the same name (a field keeps the position
+    # of its first declaration), and only then drop the fields that are not `__init__` parameters:
+    # a class variable or a `field(init=False)` removes the inherited parameter it overrides.
+    params_dict = {param.name: (param, in_init) for param, in_init in parameters}
 
     # Re-order, putting positional-only in front and keyword-only at the end.
     pos_only = []
     pos_kw = []
     kw_only = []
-    for param in params_dict.values():
+    for param, in_init in params_dict.values():
+        if not in_init:
+            continue
         if param.kind is ParameterKind.positional_only:
             pos_only.append(param)
         elif param.kind is ParameterKind.keyword_only:
